@@ -10,7 +10,8 @@ Local Open Scope Z_scope.
    operands ABOVE THE UNCHANGED REST, and memory is untouched. *)
 Definition comp_correct (gv : list Z) (body : stmt) (f : cfun) : Prop :=
   forall code pc c st', WF gv c -> cfun_apply f (svals c) = Some st' ->
-    exists c', run_body code pc body c = Some c' /\ WF gv c' /\ svals c' = st' /\ mem c' = mem c.
+    exists c', run_body code pc body c = Some c' /\ WF gv c' /\ svals c' = st' /\
+               mem c' = mem c /\ stor c' = stor c.
 
 (* general form: [spec] maps (stack values, memory) to their successors; [pre]
    is what the interpreter established before calling the body (memory already
@@ -19,12 +20,45 @@ Definition body_correct (gv : list Z) (body : stmt)
            (pre : list Z -> list N -> Prop) (spec : list Z -> list N -> list Z * list N) : Prop :=
   forall code pc c, WF gv c -> pre (svals c) (mem c) ->
     exists c', run_body code pc body c = Some c' /\ WF gv c' /\
-               (svals c', mem c') = spec (svals c) (mem c).
+               (svals c', mem c') = spec (svals c) (mem c) /\ stor c' = stor c.
 
 (* what the interpreter has established before a memory opcode runs: the
    accessed range lies inside the (already expanded) memory *)
 Definition mem_pre (n : Z) (k : nat) (st : list Z) (m : list N) : Prop :=
   (k <= length st)%nat /\ hd 0 st + n <= Z.of_nat (length m) /\ Z.of_nat (length m) < tt63.
+
+(* ---- storage ---------------------------------------------------------------------------- *)
+(* every key and value held by the storage is a 256-bit word *)
+Definition stor_ok (sr : store) : Prop :=
+  Forall (fun kv => inrange (fst kv) /\ inrange (snd kv)) sr.
+Lemma st_get_range sr k : stor_ok sr -> inrange (st_get sr k).
+Proof.
+  induction sr as [|[k' v] r IH]; intros H; cbn [st_get]; [apply inrange_0|].
+  apply Forall_cons_iff in H as [[_ Hv] Hr]. destruct (k' =? k); [exact Hv|apply IH, Hr].
+Qed.
+Lemma st_set_ok sr k v : stor_ok sr -> inrange k -> inrange v -> stor_ok (st_set sr k v).
+Proof.
+  induction sr as [|[k' v'] r IH]; intros H Hk Hv; cbn [st_set].
+  - constructor; [split; assumption|constructor].
+  - apply Forall_cons_iff in H as [[Hk' Hv'] Hr]. destruct (k' =? k).
+    + constructor; [split; assumption|exact Hr].
+    + constructor; [split; assumption|apply IH; assumption].
+Qed.
+Lemma hash_of_big_id x : inrange x -> hash_of_big x = x.
+Proof.
+  intros H. unfold hash_of_big. unfold inrange in H. rewrite Z.abs_eq by lia.
+  change (Z.land x tt256m1) with (wrap256 x). apply wrap256_id, H.
+Qed.
+
+Definition sload_correct (gv : list Z) (body : stmt) : Prop :=
+  forall code pc c k r, WF gv c -> stor_ok (stor c) -> svals c = k :: r ->
+    exists c', run_body code pc body c = Some c' /\ WF gv c' /\
+               svals c' = st_get (stor c) k :: r /\ mem c' = mem c /\ stor c' = stor c.
+Definition sstore_correct (gv : list Z) (body : stmt) : Prop :=
+  forall code pc c k v r, WF gv c -> svals c = k :: v :: r ->
+    exists c', run_body code pc body c = Some c' /\ WF gv c' /\
+               svals c' = r /\ mem c' = mem c /\ stor c' = st_set (stor c) k v.
+
 
 (* ---- decomposition of the hypotheses ---------------------------------------- *)
 Ltac nd_hyps :=
@@ -97,10 +131,10 @@ Ltac range_rest := repeat (apply Forall_upd_notin; [notin|]); assumption.
 
 (* ---- symbolic execution --------------------------------------------------------- *)
 Ltac symex1 :=
-  cbn [exec eval_p eval_i eval_c eval_b eval_ps pop peek push stack heap next pool mem
-       lookup pv iv env0 bind_p bind_i N.eqb Pos.eqb write alloc set_mem pool_get pool_get_zero
+  cbn [exec eval_p eval_i eval_c eval_b eval_h eval_ps pop peek push stack heap next pool mem stor
+       lookup pv iv hv env0 env_pc pcvar bind_p bind_i bind_h N.eqb Pos.eqb write alloc set_mem set_stor pool_get pool_get_zero
        bin_sem un_sem sh_sem rel_sem wrap fst snd negb andb orb];
-  unfold write, push, alloc, set_mem, pool_get, pool_get_zero; cbn [stack heap next pool mem].
+  unfold write, push, alloc, set_mem, set_stor, pool_get, pool_get_zero, env_pc, pcvar; cbn [stack heap next pool mem stor].
 
 (* one case split on whatever blocks the evaluation *)
 Ltac split_stuck :=
@@ -148,9 +182,62 @@ Ltac finish_vals :=
 Ltac finish_ok :=
   eexists; split; [reflexivity|];
   split; [finish_wf; finish_range
-         |split; [finish_vals|rewrite ?pool_put_mem; reflexivity]].
+         |split; [finish_vals|split; [rewrite ?pool_put_mem; reflexivity|rewrite ?pool_put_stor; reflexivity]]].
 Ltac finish :=
   lazymatch goal with
   | |- exists c', None = Some c' /\ _ => exfalso; lia     (* a panic branch: must be unreachable *)
   | _ => finish_ok
   end.
+
+(* ---- the program counter ------------------------------------------------------------------- *)
+(* a body that never assigns *pc leaves it where it was *)
+Fixpoint assigns_pc (s : stmt) : bool :=
+  match s with
+  | SSeq a b | SIf _ a b => assigns_pc a || assigns_pc b
+  | SDefI v _ => N.eqb v pcvar
+  | _ => false
+  end.
+
+Ltac destruct_match_hyp He :=
+  repeat match type of He with
+  | match ?x with _ => _ end = Some _ => let E := fresh "E" in destruct x eqn:E; try discriminate He
+  | (let (_, _) := ?x in _) = Some _ => let E := fresh "E" in destruct x eqn:E
+  | (if ?x then _ else _) = Some _ => let E := fresh "E" in destruct x eqn:E; try discriminate He
+  end.
+
+Lemma exec_keeps_pc code s : forall en cf r en' cf',
+  assigns_pc s = false -> exec code s en cf = Some (r, en', cf') ->
+  lookup (iv en') pcvar = lookup (iv en) pcvar.
+Proof.
+  induction s as [ |s1 IH1 s2 IH2| | | | | |cd s1 IH1 s2 IH2| | | | | | ];
+    intros en cf r en' cf' Ha He; cbn [exec assigns_pc] in *.
+  - injection He as <- <- <-. reflexivity.
+  - apply Bool.orb_false_iff in Ha as [Ha1 Ha2].
+    destruct (exec code s1 en cf) as [[[r1 en1] c1]|] eqn:E1; [|discriminate].
+    destruct r1.
+    + injection He as <- <- <-. eapply IH1; eassumption.
+    + rewrite (IH2 _ _ _ _ _ Ha2 He). eapply IH1; eassumption.
+  - destruct_match_hyp He. injection He as <- <- <-. reflexivity.
+  - destruct_match_hyp He. injection He as <- <- <-. cbn [bind_i iv lookup]. rewrite Ha. reflexivity.
+  - destruct_match_hyp He. injection He as <- <- <-. reflexivity.
+  - destruct_match_hyp He. injection He as <- <- <-. reflexivity.
+  - destruct_match_hyp He. injection He as <- <- <-. reflexivity.
+  - apply Bool.orb_false_iff in Ha as [Ha1 Ha2].
+    destruct (eval_c code cd en cf) as [[t c1]|]; [|discriminate].
+    destruct t; [eapply IH1|eapply IH2]; eassumption.
+  - injection He as <- <- <-. reflexivity.
+  - destruct_match_hyp He. injection He as <- <- <-. reflexivity.
+  - destruct_match_hyp He. injection He as <- <- <-. reflexivity.
+  - destruct_match_hyp He. injection He as <- <- <-. reflexivity.
+  - destruct_match_hyp He. injection He as <- <- <-. reflexivity.
+  - destruct_match_hyp He. injection He as <- <- <-. reflexivity.
+Qed.
+
+Lemma run_body_keeps_pc code pc s c c' :
+  assigns_pc s = false -> run_body code pc s c = Some c' -> run_body_pc code pc s c = Some (c', pc).
+Proof.
+  unfold run_body, run_body_pc. intros Ha H.
+  destruct (exec code s (env_pc pc) c) as [[[r en] c1]|] eqn:E; [|discriminate].
+  injection H as <-. rewrite (exec_keeps_pc _ _ _ _ _ _ _ Ha E).
+  cbn. rewrite N2Z.id. reflexivity.
+Qed.
